@@ -2,7 +2,7 @@
 // (reference leg).
 //
 // The file is one translation unit when compiled plainly, and is compiled in parts (-DC01_PART=k, see pcxx.py) by the
-// check so that the element-type x capacity instantiations build in parallel (10 parts): part 0 holds main(), the parser and the
+// check so that the element-type x capacity instantiations build in parallel (11 parts): part 0 holds main(), the parser and the
 // reference leg, every part holds the flavours listed in its `#if PART(k)` block.
 #include "common.hpp"
 
@@ -36,15 +36,16 @@ inline long g_live = 0;   // live instances of the instrumented element types
 static bool pred_of(int id, int v);   // the shared predicate family (defined below)
 
 // non-trivial element: selects static_vector_non_trivial_storage / the non-defaulted special members; the copy
-// constructor is NOT noexcept
+// constructor is NOT noexcept.  A COPY leaves its source alone, a MOVE marks it (-555): a member that moves from a
+// range it should copy (or the other way round) shows in the source range printed after every range operation
 struct Tracked {
     int v{0};
     Tracked() { ++g_live; }
     Tracked(int x) : v{x} { ++g_live; }   // NOLINT
     Tracked(Tracked const& o) : v{o.v} { ++g_live; }
-    Tracked(Tracked&& o) noexcept : v{o.v} { ++g_live; }
+    Tracked(Tracked&& o) noexcept : v{o.v} { o.v = -555; ++g_live; }
     auto operator=(Tracked const& o) -> Tracked& { v = o.v; return *this; }
-    auto operator=(Tracked&& o) noexcept -> Tracked& { v = o.v; return *this; }
+    auto operator=(Tracked&& o) noexcept -> Tracked& { if (this != &o) { v = o.v; o.v = -555; } return *this; }
     ~Tracked() { --g_live; }
     friend bool operator==(Tracked const& a, Tracked const& b) { return a.v == b.v; }
     friend bool operator<(Tracked const& a, Tracked const& b) { return a.v < b.v; }
@@ -113,10 +114,22 @@ struct Pod {
 inline bool operator==(Pod const& a, Pod const& b) { return a.v == b.v && a.w == b.w; }
 inline bool operator<(Pod const& a, Pod const& b) { return a.v < b.v; }
 static_assert(std::is_trivial_v<Pod>);
+// a record (key, tag) stored as v = 16 * key + tag (the keying of pred_of):  operator<  orders by the KEY only (a strict
+// weak order),  operator==  compares key AND tag, so two elements can be equivalent under < without being equal.  With
+// such a type  a >= b  (= !(a < b))  and  "a > b or a == b"  are different functions, likewise <= ; a total order
+// cannot tell them apart.
+struct KeyTag {
+    int v;
+};
+inline int kt_key(int v) { return v >= 0 ? v / 16 : -((-v + 15) / 16); }
+inline bool operator==(KeyTag const& a, KeyTag const& b) { return a.v == b.v; }
+inline bool operator<(KeyTag const& a, KeyTag const& b) { return kt_key(a.v) < kt_key(b.v); }
+static_assert(std::is_trivial_v<KeyTag>);
 static_assert(!std::is_trivially_copy_constructible_v<NxCopy> && std::is_nothrow_copy_constructible_v<NxCopy>);
 
 template <typename T> inline T mk(int v) { return T(v); }
 template <> inline Pod mk<Pod>(int v) { return Pod{v, v * 7}; }
+template <> inline KeyTag mk<KeyTag>(int v) { return KeyTag{v}; }
 // std::string: 0 is the empty string (what T{} gives), v > 0 a zero-padded 24-digit string (heap-allocated, and
 // lexicographic order = numeric order)
 template <> inline std::string mk<std::string>(int v)
@@ -130,6 +143,7 @@ inline int get(Tracked const& e) { return e.v; }
 inline int get(NxCopy const& e) { return e.ok() ? e.v : -999; }
 inline int get(MoveOnly const& e) { return e.ok() ? e.v : -999; }
 inline int get(Pod const& e) { return e.w == e.v * 7 ? e.v : -999; }
+inline int get(KeyTag const& e) { return e.v; }
 inline int get(TdcCopy const& e) { return e.ok() ? e.v : -999; }
 inline int get(std::string const& e) { return e.empty() ? 0 : (e.size() == 24 ? std::stoi(e) : -999); }
 template <typename T> inline constexpr bool counted_v = std::is_same_v<T, Tracked> || std::is_same_v<T, NxCopy> || std::is_same_v<T, MoveOnly>;
@@ -229,7 +243,16 @@ static_assert(etl::detail::InputIterator<BidiIt<int>> && !etl::detail::RandomAcc
 static_assert(etl::detail::InputIterator<FwdIt<int>> && !etl::detail::RandomAccessIterator<FwdIt<int>>);
 static_assert(etl::detail::InputIterator<OnceIt<int>> && !etl::detail::ForwardIterator<OnceIt<int>>);
 
-// calls f(first, last) with the range xs given by iterators of kind k; false = no such kind
+// the SOURCE range after a range operation, in iteration order: a member that copies leaves it as it was, a member
+// that moves leaves moved-from elements (what that is depends on T: nothing for int, "" for std::string, -555 for the
+// instrumented types); the elements are non-const, so a library that moves where it should copy is free to do so
+template <typename C>
+static void show_source(Out& o, C const& src, bool backwards = false)
+{
+    if (backwards) { for (auto it = src.rbegin(); it != src.rend(); ++it) { o.num(get(*it)); } }
+    else { for (auto const& e : src) { o.num(get(e)); } }
+}
+// calls f(first, last) with the range xs given by iterators of kind k, then prints the source range; false = no such kind
 template <typename T, typename F>
 static bool with_range(i64 kind, std::vector<i64> const& xs, Out& o, F&& f)
 {
@@ -237,23 +260,25 @@ static bool with_range(i64 kind, std::vector<i64> const& xs, Out& o, F&& f)
     auto* b  = src.data();
     auto* e  = src.data() + src.size();
     switch (kind) {
-    case 0: f(b, e); return true;
+    case 0: f(b, e); break;
     case 1: {
         std::reverse(src.begin(), src.end());
         f(etl::reverse_iterator<T*>(e), etl::reverse_iterator<T*>(b));
-        return true;
+        break;
     }
-    case 2: f(BidiIt<T>{b}, BidiIt<T>{e}); return true;
-    case 3: f(FwdIt<T>{b}, FwdIt<T>{e}); return true;
+    case 2: f(BidiIt<T>{b}, BidiIt<T>{e}); break;
+    case 3: f(FwdIt<T>{b}, FwdIt<T>{e}); break;
     case 4: {
         OnceState<T> st{b, 0, false};
         f(OnceIt<T>{b, &st}, OnceIt<T>{e, &st});
         if (st.reread) { o.tok("second-pass"); }
-        return true;
+        break;
     }
-    case 5: f(RaIt<T>{b}, RaIt<T>{e}); return true;
+    case 5: f(RaIt<T>{b}, RaIt<T>{e}); break;
     default: return false;
     }
+    show_source(o, src, kind == 1);
+    return true;
 }
 
 struct Step {
@@ -354,15 +379,15 @@ static void sv_step(Step const& s, Vec (&v)[2], Out& o)
     else if (op == "irv") { o.num(x.insert(at_off(x.begin(), A(0)), val(1)) - x.begin()); }
     else if (op == "emp") { o.num(x.emplace(at_off(x.begin(), A(0)), mkarg<T>(static_cast<int>(A(1)))) - x.begin()); }
     else if (op == "inn") { if constexpr (copyable) { T c = val(2); o.num(x.insert(at_off(x.begin(), A(0)), static_cast<std::size_t>(A(1)), c) - x.begin()); } else { unsupported(); } }
-    else if (op == "irg") { if constexpr (copyable) { auto src = mkvec<T>(s.xs); o.num(x.insert(at_off(x.begin(), A(0)), src.data(), src.data() + src.size()) - x.begin()); } else { unsupported(); } }
-    else if (op == "mir") { auto src = mkvec<T>(s.xs); o.num(x.move_insert(at_off(x.begin(), A(0)), src.data(), src.data() + src.size()) - x.begin()); }
+    else if (op == "irg") { if constexpr (copyable) { auto src = mkvec<T>(s.xs); o.num(x.insert(at_off(x.begin(), A(0)), src.data(), src.data() + src.size()) - x.begin()); show_source(o, src); } else { unsupported(); } }
+    else if (op == "mir") { auto src = mkvec<T>(s.xs); o.num(x.move_insert(at_off(x.begin(), A(0)), src.data(), src.data() + src.size()) - x.begin()); show_source(o, src); }
     else if (op == "era") { o.num(x.erase(at_off(x.begin(), A(0))) - x.begin()); }
     else if (op == "err") { o.num(x.erase(at_off(x.begin(), A(0)), at_off(x.begin(), A(1))) - x.begin()); }
     else if (op == "clr") { x.clear(); }
     else if (op == "rsz") { x.resize(static_cast<std::size_t>(A(0))); }
     else if (op == "rsv") { if constexpr (copyable) { T c = val(1); x.resize(static_cast<std::size_t>(A(0)), c); } else { unsupported(); } }
     else if (op == "asn") { if constexpr (copyable) { T c = val(1); x.assign(static_cast<std::size_t>(A(0)), c); } else { unsupported(); } }
-    else if (op == "asr") { if constexpr (copyable) { auto src = mkvec<T>(s.xs); x.assign(src.data(), src.data() + src.size()); } else { unsupported(); } }
+    else if (op == "asr") { if constexpr (copyable) { auto src = mkvec<T>(s.xs); x.assign(src.data(), src.data() + src.size()); show_source(o, src); } else { unsupported(); } }
     else if (op == "swp") { v[0].swap(v[1]); }
     else if (op == "fsw") { using etl::swap; swap(v[0], v[1]); }
     else if (op == "cpa") { if constexpr (copyable) { x = y; } else { unsupported(); } }
@@ -401,12 +426,13 @@ static void sv_step(Step const& s, Vec (&v)[2], Out& o)
     else if (op == "mxs") { o.num(static_cast<i64>(x.max_size())).num(static_cast<i64>(x.capacity())); }
     else if (op == "ctn") { Vec tmp(static_cast<std::size_t>(A(0))); print_vec(o, tmp); x = etl::move(tmp); }
     else if (op == "ctv") { if constexpr (copyable) { T c = val(1); Vec tmp(static_cast<std::size_t>(A(0)), c); print_vec(o, tmp); x = etl::move(tmp); } else { unsupported(); } }
-    else if (op == "ctr") { if constexpr (copyable) { auto src = mkvec<T>(s.xs); Vec tmp(src.data(), src.data() + src.size()); print_vec(o, tmp); x = etl::move(tmp); } else { unsupported(); } }
+    else if (op == "ctr") { if constexpr (copyable) { auto src = mkvec<T>(s.xs); Vec tmp(src.data(), src.data() + src.size()); print_vec(o, tmp); x = etl::move(tmp); show_source(o, src); } else { unsupported(); } }
     else if (op == "cta") {
         // static_vector(c_array<T, 2>&&); a larger array than the capacity does not compile (requires-clause)
         if constexpr (N >= 2) {
             T arr[2] = {mk<T>(static_cast<int>(s.xs.at(0))), mk<T>(static_cast<int>(s.xs.at(1)))};
             Vec tmp(etl::move(arr)); print_vec(o, tmp); x = etl::move(tmp);
+            o.num(get(arr[0])).num(get(arr[1]));   // the array the constructor moved from
         } else { unsupported(); }
     }
     else if (op == "cte") { Vec tmp(etl::empty_c_array{}); print_vec(o, tmp); x = etl::move(tmp); }
@@ -649,6 +675,7 @@ int c01_part6(std::string const& fl, i64 cap, Steps const& steps, Out& impl);
 int c01_part7(std::string const& fl, i64 cap, Steps const& steps, Out& impl);
 int c01_part8(std::string const& fl, i64 cap, Steps const& steps, Out& impl);
 int c01_part9(std::string const& fl, i64 cap, Steps const& steps, Out& impl);
+int c01_part10(std::string const& fl, i64 cap, Steps const& steps, Out& impl);
 
 #if PART(0)
 int c01_part0(std::string const& fl, i64 cap, Steps const& steps, Out& impl)
@@ -737,6 +764,16 @@ int c01_part9(std::string const& fl, i64 cap, Steps const& steps, Out& impl)
 }
 #endif
 
+// records ordered by key only: the relations of static_vector and of stack with an order coarser than equality
+#if PART(10)
+int c01_part10(std::string const& fl, i64 cap, Steps const& steps, Out& impl)
+{
+    if (fl == "sv_kt") { return MK_SV(KeyTag, 2, 3, 8); }
+    if (fl == "st_kt") { return MK_ST(KeyTag, 3, 4); }
+    return -1;
+}
+#endif
+
 #if PART(0)
 // ---------------------------------------------------------------------------------------------------------------------
 static std::vector<Step> parse(Toks& in)
@@ -809,6 +846,53 @@ static bool with_std_range(i64 kind, std::vector<i64> const& xs, F&& f)
     }
 }
 
+// ---- reference: what the element type matters for.  The reference vectors hold the ints the elements stand for; the
+// two observations that depend on the element type itself are computed with std::vector<T> of the flavour's own T:
+//   * the six relations (KeyTag: operator< coarser than operator==),
+//   * the source range after insert(p, i, j) / assign(i, j) / X(i, j) (copies: untouched) and after
+//     insert(p, make_move_iterator(i), make_move_iterator(j)) (the standard's spelling of move_insert: moved-from)
+inline std::string g_elem = "int";   // element type of the running flavour: int trk pod nxc str mov tdc kt
+template <typename T>
+static void std_source_after_t(Out& o, int how, std::vector<i64> const& xs)
+{
+    auto src = mkvec<T>(xs);
+    {
+        std::vector<T> dst;
+        if constexpr (std::is_copy_constructible_v<T>) {
+            if (how == 0) { dst.insert(dst.begin(), src.begin(), src.end()); }
+            else if (how == 1) { dst.assign(src.begin(), src.end()); }
+            else if (how == 2) { std::vector<T> tmp(src.begin(), src.end()); dst = std::move(tmp); }
+        }
+        if (how == 3) { dst.insert(dst.begin(), std::make_move_iterator(src.begin()), std::make_move_iterator(src.end())); }
+    }
+    for (auto const& e : src) { o.num(get(e)); }
+}
+static void std_source_after(Out& o, int how, std::vector<i64> const& xs)
+{
+    if (g_elem == "trk") { std_source_after_t<Tracked>(o, how, xs); }
+    else if (g_elem == "pod") { std_source_after_t<Pod>(o, how, xs); }
+    else if (g_elem == "nxc") { std_source_after_t<NxCopy>(o, how, xs); }
+    else if (g_elem == "str") { std_source_after_t<std::string>(o, how, xs); }
+    else if (g_elem == "mov") { std_source_after_t<MoveOnly>(o, how, xs); }
+    else if (g_elem == "tdc") { std_source_after_t<TdcCopy>(o, how, xs); }
+    else if (g_elem == "kt") { std_source_after_t<KeyTag>(o, how, xs); }
+    else { std_source_after_t<int>(o, how, xs); }
+}
+template <typename C>
+static void six_relations(Out& o, C const& a, C const& b) { o.b(a == b).b(a != b).b(a < b).b(a <= b).b(a > b).b(a >= b); }
+static void std_relations(Out& o, RV const& a, RV const& b, bool as_stack)
+{
+    if (g_elem == "kt") {
+        std::vector<KeyTag> ka;
+        std::vector<KeyTag> kb;
+        for (auto e : a) { ka.push_back(KeyTag{e}); }
+        for (auto e : b) { kb.push_back(KeyTag{e}); }
+        if (as_stack) { six_relations(o, std::stack<KeyTag, std::vector<KeyTag>>(ka), std::stack<KeyTag, std::vector<KeyTag>>(kb)); }
+        else { six_relations(o, ka, kb); }
+    } else if (as_stack) { six_relations(o, std::stack<int, RV>(a), std::stack<int, RV>(b)); }
+    else { six_relations(o, a, b); }
+}
+
 // ---- reference: std::vector with the documented preconditions; false = outside the domain
 static bool std_step(Step const& s, RV (&v)[2], std::size_t cap, Out& o)
 {
@@ -837,11 +921,17 @@ static bool std_step(Step const& s, RV (&v)[2], std::size_t cap, Out& o)
     else if (op == "irk" || op == "mik") {
         if (A(1) < 0 || A(1) > sz || static_cast<i64>(s.xs.size()) > room) { return false; }
         if (!with_std_range(A(0), s.xs, [&](auto f, auto l) { auto it = x.insert(x.begin() + A(1), f, l); o.num(it - x.begin()); })) { return false; }
+        std_source_after(o, op == "irk" ? 0 : 3, s.xs);
     }
-    else if (op == "ask") { if (s.xs.size() > cap) { return false; } if (!with_std_range(A(0), s.xs, [&](auto f, auto l) { x.assign(f, l); })) { return false; } }
+    else if (op == "ask") {
+        if (s.xs.size() > cap) { return false; }
+        if (!with_std_range(A(0), s.xs, [&](auto f, auto l) { x.assign(f, l); })) { return false; }
+        std_source_after(o, 1, s.xs);
+    }
     else if (op == "ctk") {
         if (s.xs.size() > cap) { return false; }
         if (!with_std_range(A(0), s.xs, [&](auto f, auto l) { RV tmp(f, l); print_std(o, tmp); x = std::move(tmp); })) { return false; }
+        std_source_after(o, 2, s.xs);
     }
     else if (op == "pop") { if (sz == 0) { return false; } x.pop_back(); }
     else if (op == "icr" || op == "irv" || op == "emp") {
@@ -854,6 +944,7 @@ static bool std_step(Step const& s, RV (&v)[2], std::size_t cap, Out& o)
         if (A(0) < 0 || A(0) > sz || static_cast<i64>(s.xs.size()) > room) { return false; }
         RV src(s.xs.begin(), s.xs.end());
         { auto it = x.insert(x.begin() + A(0), std::make_move_iterator(src.begin()), std::make_move_iterator(src.end())); o.num(it - x.begin()); }
+        std_source_after(o, op == "irg" ? 0 : 3, s.xs);
     } else if (op == "era") {
         if (A(0) < 0 || A(0) >= sz) { return false; }
         o.num(x.erase(x.begin() + A(0)) - x.begin());
@@ -864,7 +955,7 @@ static bool std_step(Step const& s, RV (&v)[2], std::size_t cap, Out& o)
     else if (op == "rsz") { if (A(0) < 0 || A(0) > icap) { return false; } x.resize(static_cast<std::size_t>(A(0))); }
     else if (op == "rsv") { if (A(0) < 0 || A(0) > icap) { return false; } x.resize(static_cast<std::size_t>(A(0)), I(1)); }
     else if (op == "asn") { if (A(0) < 0 || A(0) > icap) { return false; } x.assign(static_cast<std::size_t>(A(0)), I(1)); }
-    else if (op == "asr") { if (s.xs.size() > cap) { return false; } RV src(s.xs.begin(), s.xs.end()); x.assign(src.begin(), src.end()); }
+    else if (op == "asr") { if (s.xs.size() > cap) { return false; } RV src(s.xs.begin(), s.xs.end()); x.assign(src.begin(), src.end()); std_source_after(o, 1, s.xs); }
     else if (op == "swp") { v[0].swap(v[1]); }
     else if (op == "fsw") { using std::swap; swap(v[0], v[1]); }
     else if (op == "cpa") { x = y; }
@@ -873,7 +964,7 @@ static bool std_step(Step const& s, RV (&v)[2], std::size_t cap, Out& o)
     else if (op == "mrt") { RV tmp(std::move(x)); print_std(o, tmp); x = std::move(tmp); }
     else if (op == "eif") { auto id = I(0); o.num(static_cast<i64>(std::erase_if(x, [&](int e) { return pred_of(id, e); }))); }
     else if (op == "erv") { o.num(static_cast<i64>(std::erase(x, I(0)))); }
-    else if (op == "rel") { auto& a = v[0]; auto& b = v[1]; o.b(a == b).b(a != b).b(a < b).b(a <= b).b(a > b).b(a >= b); }
+    else if (op == "rel") { std_relations(o, v[0], v[1], false); }
     else if (op == "at") { if (A(0) < 0 || A(0) >= sz) { return false; } o.num(x[static_cast<std::size_t>(A(0))]); }
     else if (op == "fr") { if (sz == 0) { return false; } o.num(x.front()); }
     else if (op == "bk") { if (sz == 0) { return false; } o.num(x.back()); }
@@ -892,8 +983,8 @@ static bool std_step(Step const& s, RV (&v)[2], std::size_t cap, Out& o)
     else if (op == "mxs") { o.num(icap).num(icap); }   // [inplace.vector.capacity]: max_size() == capacity() == N
     else if (op == "ctn") { if (A(0) < 0 || A(0) > icap) { return false; } RV tmp(static_cast<std::size_t>(A(0))); print_std(o, tmp); x = std::move(tmp); }
     else if (op == "ctv") { if (A(0) < 0 || A(0) > icap) { return false; } RV tmp(static_cast<std::size_t>(A(0)), I(1)); print_std(o, tmp); x = std::move(tmp); }
-    else if (op == "ctr") { if (s.xs.size() > cap) { return false; } RV tmp(s.xs.begin(), s.xs.end()); print_std(o, tmp); x = std::move(tmp); }
-    else if (op == "cta") { if (s.xs.size() != 2 || cap < 2) { return false; } RV tmp{static_cast<int>(s.xs[0]), static_cast<int>(s.xs[1])}; print_std(o, tmp); x = std::move(tmp); }
+    else if (op == "ctr") { if (s.xs.size() > cap) { return false; } RV tmp(s.xs.begin(), s.xs.end()); print_std(o, tmp); x = std::move(tmp); std_source_after(o, 2, s.xs); }
+    else if (op == "cta") { if (s.xs.size() != 2 || cap < 2) { return false; } RV tmp{static_cast<int>(s.xs[0]), static_cast<int>(s.xs[1])}; print_std(o, tmp); x = std::move(tmp); std_source_after(o, 3, s.xs); }
     else if (op == "cte") { RV tmp; print_std(o, tmp); x = std::move(tmp); }
     else if (op == "cpi") { RV c(x); if (A(0) != 0) { ref_mutate(c, I(1), cap); } else { ref_mutate(x, I(1), cap); } print_std(o, c); }
     // inplace_vector interface
@@ -928,7 +1019,7 @@ static bool std_stack_step(Step const& s, RefStack (&v)[2], std::size_t cap, Out
     else if (op == "siz") { o.num(static_cast<i64>(x.size())).b(x.empty()); }
     else if (op == "swp") { v[0].swap(v[1]); }
     else if (op == "fsw") { using std::swap; swap(static_cast<std::stack<int, RV>&>(v[0]), static_cast<std::stack<int, RV>&>(v[1])); }
-    else if (op == "rel") { auto& a = v[0]; auto& b = v[1]; o.b(a == b).b(a != b).b(a < b).b(a <= b).b(a > b).b(a >= b); }
+    else if (op == "rel") { std_relations(o, v[0].cont(), v[1].cont(), true); }
     else if (op == "cpc") { RefStack c(x); o.b(c == x); print_std(o, c.cont()); }
     else if (op == "mvc") { RefStack c(std::move(x)); x = RefStack{}; print_std(o, c.cont()); }
     else if (op == "cpa") { x = y; }
@@ -948,11 +1039,15 @@ bool vh::run_case(std::string const& op, Toks& in, Out& impl, Out& ref)
     auto steps   = parse(in);
     int r        = -1;
     using part_fn = int (*)(std::string const&, i64, Steps const&, Out&);
-    for (part_fn f : {c01_part0, c01_part1, c01_part2, c01_part3, c01_part4, c01_part5, c01_part6, c01_part7, c01_part8, c01_part9}) {
+    for (part_fn f : {c01_part0, c01_part1, c01_part2, c01_part3, c01_part4, c01_part5, c01_part6, c01_part7, c01_part8, c01_part9, c01_part10}) {
         r = f(flavour, cap, steps, impl);
         if (r != -1) { break; }
     }
     if (r == -1) { impl.tok("bad-instantiation"); return true; }
+    {
+        auto us = flavour.find('_');
+        g_elem  = (us == std::string::npos || flavour == "stack") ? std::string("int") : flavour.substr(us + 1);
+    }
     // reference
     Out rr;
     bool dom    = true;
